@@ -37,6 +37,90 @@ def describe(o) -> object:
     return ["other", type(o).__name__]
 
 
+CONTAINERS = ["list", "tuple", "gen", "iter", "map", "filter"]
+
+
+def _container(items: list, kind: str):
+    if kind == "list":
+        return list(items)
+    if kind == "tuple":
+        return tuple(items)
+    if kind == "gen":
+        return (a for a in items)
+    if kind == "iter":
+        return iter(list(items))
+    if kind == "map":
+        return map(lambda a: a, items)
+    if kind == "filter":
+        return filter(lambda a: True, items)
+    raise ValueError(kind)
+
+
+def rebuild(o, kind: str = "list"):
+    """Re-creates a model object through its *public constructor* from its own public accessors, handing the attribute
+    collection over as the given kind of iterable (the signatures say Iterable[Attribute]). Returns (new object, the
+    argument object that was handed over or None). Services, primitives: rebuilt from their parts."""
+    if isinstance(o, pydsdl.ServiceType):
+        rq, _ = rebuild(o.request_type, kind)
+        rs, _ = rebuild(o.response_type, kind)
+        return pydsdl.ServiceType(rq, rs, o.fixed_port_id), None
+    if isinstance(o, pydsdl.DelimitedType):
+        inner, arg = rebuild(o.inner_type, kind)
+        return pydsdl.DelimitedType(inner, o.extent), arg
+    if isinstance(o, (pydsdl.StructureType, pydsdl.UnionType)):
+        arg = _container(list(o.attributes), kind)
+        new = type(o)(name=o.full_name, version=o.version, attributes=arg, deprecated=o.deprecated, fixed_port_id=o.fixed_port_id,
+                      source_file_path=o.source_file_path, has_parent_service=o.has_parent_service, doc=o.doc)
+        return new, arg
+    if isinstance(o, pydsdl.ArrayType):
+        return type(o)(o.element_type, o.capacity), None
+    if isinstance(o, pydsdl.VoidType):
+        return pydsdl.VoidType(o.bit_length), None
+    if isinstance(o, pydsdl.BooleanType):
+        return pydsdl.BooleanType(), None
+    if isinstance(o, (pydsdl.ByteType, pydsdl.UTF8Type)):
+        return type(o)(), None
+    if isinstance(o, pydsdl.ArithmeticType):
+        return type(o)(o.bit_length, o.cast_mode), None
+    raise TypeError(type(o).__name__)
+
+
+def harvest(types: dict) -> list:
+    """(key, object) pairs of everything reachable from a dict {str(type): composite}: composites, request / response, inner
+    types, attributes, their types, array elements, constant values, bit length sets, a few expression values."""
+    objs = []
+    for k, t in types.items():
+        objs.append((k, t))
+        parts = [t.request_type, t.response_type] if isinstance(t, pydsdl.ServiceType) else [t]
+        for pi, p in enumerate(parts):
+            if isinstance(t, pydsdl.ServiceType):
+                objs.append(("%s/p%d" % (k, pi), p))
+            if isinstance(p, pydsdl.DelimitedType):
+                objs.append(("%s/p%d/inner" % (k, pi), p.inner_type))
+            for ai, at in enumerate(p.attributes):
+                objs.append(("%s/p%d/a%d" % (k, pi, ai), at))
+                objs.append(("%s/p%d/a%d/t" % (k, pi, ai), at.data_type))
+                if isinstance(at.data_type, pydsdl.ArrayType):
+                    objs.append(("%s/p%d/a%d/t/e" % (k, pi, ai), at.data_type.element_type))
+                if isinstance(at, pydsdl.Constant):
+                    objs.append(("%s/p%d/a%d/v" % (k, pi, ai), at.value))
+            objs.append(("%s/p%d/bls" % (k, pi), p.bit_length_set))
+    objs.append(("expr/set", pydsdl.Set([pydsdl.Rational(1), pydsdl.Rational(3), pydsdl.Rational(-5)])))
+    objs.append(("expr/sset", pydsdl.Set([pydsdl.String("a"), pydsdl.String("bb"), pydsdl.String("ccc"), pydsdl.String("dd")])))
+    objs.append(("expr/str", pydsdl.String("héllo")))
+    objs.append(("expr/bool", pydsdl.Boolean(True)))
+    return objs
+
+
+def read_all(dirs: list) -> dict:
+    """{str(type): composite} of every root directory in dirs, each read with the others as lookups (as World-X nodes do)."""
+    types = {}
+    for i, d in enumerate(dirs):
+        for t in pydsdl.read_namespace(d, [x for j, x in enumerate(dirs) if j != i]):
+            types[str(t)] = t
+    return types
+
+
 class Peer:
     """A second interpreter started under another PYTHONHASHSEED; speaks one JSON line per request."""
 
@@ -51,11 +135,13 @@ class Peer:
         self.p = subprocess.Popen([sys.executable, "-m", "dsim.peer"], stdin=subprocess.PIPE, stdout=subprocess.PIPE, stderr=subprocess.DEVNULL,
                                   env=env, text=True)
 
-    def ask(self, blob: bytes) -> dict:
+    def ask(self, blob: bytes, key: str | None = None, dirs: list | None = None) -> dict:
+        """key / dirs: the peer additionally reads the namespace directories itself (under its own hash seed), harvests the
+        object with that key and compares the unpickled object with it (==, hash, dict lookup)."""
         if self.p is None or self.p.poll() is not None:
             self.start()
         assert self.p and self.p.stdin and self.p.stdout
-        self.p.stdin.write(json.dumps({"pickle": blob.hex()}) + "\n")
+        self.p.stdin.write(json.dumps({"pickle": blob.hex(), "key": key, "dirs": dirs}) + "\n")
         self.p.stdin.flush()
         line = self.p.stdout.readline()
         if not line:
